@@ -175,6 +175,51 @@ impl RefZone {
 }
 
 // ---------------------------------------------------------------------------------------------
+// the derived `Debug` rendering chrono gives a zone (field names as in tz_info), built from the model
+
+fn dbg_type(t: &RefType) -> String {
+    let name = if t.abbr.is_empty() { "None".to_string() } else { format!("Some({:?})", t.abbr) };
+    format!("LocalTimeType {{ ut_offset: {}, is_dst: {}, name: {} }}", t.off, t.dst, name)
+}
+fn dbg_day(d: &RuleDay) -> String {
+    match d {
+        RuleDay::J1(n) => format!("Julian1WithoutLeap({})", n),
+        RuleDay::J0(n) => format!("Julian0WithLeap({})", n),
+        RuleDay::M { m, w, d } => format!("MonthWeekday {{ month: {}, week: {}, week_day: {} }}", m, w, d),
+    }
+}
+impl RefRule {
+    pub fn debug_string(&self) -> String {
+        match &self.dst {
+            None => format!("Fixed({})", dbg_type(&self.std)),
+            Some(d) => format!(
+                "Alternate(AlternateTime {{ std: {}, dst: {}, dst_start: {}, dst_start_time: {}, dst_end: {}, dst_end_time: {} }})",
+                dbg_type(&self.std), dbg_type(&d.ty), dbg_day(&d.start), d.start_time, dbg_day(&d.end), d.end_time
+            ),
+        }
+    }
+}
+impl RefZone {
+    pub fn debug_string(&self) -> String {
+        let tr: Vec<String> = self.trans.iter().map(|(t, i)| format!("Transition {{ unix_leap_time: {}, local_time_type_index: {} }}", t, i)).collect();
+        let ty: Vec<String> = self.types.iter().map(dbg_type).collect();
+        let rule = match &self.rule {
+            None => "None".to_string(),
+            Some(r) => format!("Some({})", r.debug_string()),
+        };
+        format!("TimeZone {{ transitions: [{}], local_time_types: [{}], leap_seconds: [], extra_rule: {} }}", tr.join(", "), ty.join(", "), rule)
+    }
+    /// the zone `Local` builds from a bare TZ rule string
+    pub fn from_rule(r: RefRule) -> RefZone {
+        let mut types = vec![r.std.clone()];
+        if let Some(d) = &r.dst {
+            types.push(d.ty.clone());
+        }
+        RefZone { trans: vec![], types, rule: Some(r) }
+    }
+}
+
+// ---------------------------------------------------------------------------------------------
 // POSIX TZ strings
 
 fn fmt_hms(out: &mut String, secs: i64, force_sign: bool) {
@@ -555,7 +600,10 @@ pub fn read_tzif(bytes: &[u8]) -> Result<RefZone, Reject> {
         (h1, 4)
     } else {
         skip(&mut r, &h1, 4)?;
-        (header(&mut r)?, 8)
+        // the version that counts is the first header's; the second header only has to be a valid header
+        let mut h2 = header(&mut r)?;
+        h2.version = h1.version;
+        (h2, 8)
     };
     let times = r.take(h.time.checked_mul(ts).ok_or(Reject::Truncated)?)?;
     let idxs = r.take(h.time)?;
